@@ -75,7 +75,7 @@ def explore(ctx):
                     doc = G.replace_at(doc, p, lambda d: G.with_tag(d, tag))
                     descs.append((p, tag))
                 if ctx.rng.random() < 0.3:
-                    doc, d2 = G.mutate(ctx.rng, doc)
+                    doc, d2 = G.mutate(ctx.rng, doc, c.spec)
                     descs.append(d2)
                 try:
                     c2 = L.build_case(ctx.rng, yaml, yatiml, c.spec, c.doc_type, doc, ('tags', descs))
@@ -156,7 +156,6 @@ def reachable_classes(spec, t):
 
 
 def search(ctx, broken):
-    ctx.tier = 'thorough'
     explore(ctx)
 
 
